@@ -30,6 +30,7 @@ THEOREMS = [
     ("c12_count", "forall s : bitset, wfb s = true -> count s = N.of_nat (length (filter (mem s) (indices s)))"),
     ("c12_indices", "forall (s : bitset) (i : N), In i (indices s) <-> i < cap s"),
     ("c12_iter_bits", "forall s : bitset, wfb s = true -> cap s < 2 ^ 64 -> exists l, iter_bits s = Some (cap s, l) /\\ StronglySorted N.lt l /\\ (forall i, In i l <-> i < cap s /\\ mem s i = true) /\\ next s (cap s) = Some (None, cap s)"),
+    ("c12_iter_bits_each_once", "forall (s : bitset) (l : list N) (idx : N), wfb s = true -> cap s < 2 ^ 64 -> iter_bits s = Some (idx, l) -> NoDup l"),
     ("c12_next", "forall (s : bitset) (idx : N), wfb s = true -> cap s < 2 ^ 64 -> idx <= cap s -> (exists m, next s idx = Some (Some m, m + 1) /\\ idx <= m /\\ m < cap s /\\ mem s m = true /\\ forall i, idx <= i -> i < m -> mem s i = false) \\/ (next s idx = Some (None, cap s) /\\ forall i, idx <= i -> i < cap s -> mem s i = false)"),
     ("c12_eq", "forall s t : bitset, wfb s = true -> wfb t = true -> length s = length t -> (beq s t = true <-> s = t) /\\ (s = t <-> forall i, i < cap s -> mem s i = mem t i)"),
     ("c12_display", "forall s : bitset, exists str, display s = Some str /\\ String.length str = (64 * length s)%nat /\\ forall i, i < cap s -> String.get (N.to_nat i) str = Some (if mem s i then \"1\"%char else \"0\"%char)"),
